@@ -313,6 +313,10 @@ func runC12(r *Report, tier string) {
 	checkUnprotectedEncoderTagFree(r, "R08.6")
 	r.rule("R07.3", "(shared with C07) the decode modes set no element/nesting/pair limit below the library default: the encoder has no matching bound.")
 	checkDecoderLimits(r, "R07.3")
+	// "returning exactly those values": the header maps of the returned message
+	// are the decoder's own, validated ones
+	r.rule("R05.5", "(shared with C05) the bucket decoders store the map they decoded and validated on this call.")
+	c05Buckets(r, "R05.5")
 }
 
 // checkHashTable: the algorithm -> crypto.Hash table (shared with C17).
